@@ -560,3 +560,8 @@ var RaceBodies = map[string]func(){
 	"c14-close-vs-new-dialer": closeVsNewDialer,
 	"c14-lost-while-attaching": lostWhileAttaching,
 }
+
+
+// LostWhileAttaching is also run under C02 (a PAIR socket must not go on counting a connection
+// that was lost while it was being attached as its peer).
+func LostWhileAttaching() { lostWhileAttaching() }
